@@ -103,6 +103,11 @@ thread_local! {
     pub static SCT_FORM: std::cell::Cell<u8> = const { std::cell::Cell::new(0) };
 }
 
+thread_local! {
+    /// FLUTE version announced by EXT_FDT in the packets `fdt_packets` writes (2 = RFC 6726, 1 = RFC 3926)
+    pub static FDT_VERSION: std::cell::Cell<u8> = const { std::cell::Cell::new(2) };
+}
+
 pub fn fdt_packets(tsi: u64, id: u32, xml: &[u8], e: usize, sct: Option<(u32, u32)>, cenc: Option<u8>) -> Vec<Vec<u8>> {
     let e = e.max(1);
     let nsym = xml.len().div_ceil(e).max(1);
@@ -111,7 +116,7 @@ pub fn fdt_packets(tsi: u64, id: u32, xml: &[u8], e: usize, sct: Option<(u32, u3
     let mut out = Vec::new();
     for j in 0..nsym {
         let mut sp = rfc::Spec::minimal(rfc::FEC_NOCODE, tsi, 0);
-        sp.exts.push(rfc::ext_fdt(2, id));
+        sp.exts.push(rfc::ext_fdt(FDT_VERSION.with(|c| c.get()), id));
         if let Some(c) = cenc {
             sp.exts.push(rfc::ext_cenc(c));
         }
